@@ -326,8 +326,8 @@ SAFE_METHODS = {
     list: {"append", "insert", "index", "count", "pop", "extend", "copy", "reverse", "sort", "remove"},
     dict: {"items", "keys", "values", "get", "copy", "setdefault", "pop", "update"},
     tuple: {"index", "count"},
-    set: {"add", "update", "discard"},
-    frozenset: set(),
+    set: {"add", "update", "discard", "isdisjoint", "issubset", "issuperset", "union", "intersection", "difference", "symmetric_difference", "copy", "remove", "clear", "pop"},
+    frozenset: {"isdisjoint", "issubset", "issuperset", "union", "intersection", "difference", "symmetric_difference", "copy"},
     range: {"index", "count"},
 }
 # every public method of the immutable text types is a pure function of concrete operands
